@@ -11,11 +11,14 @@ def sh(cmd, cwd=None):
     return p.returncode, p.stdout
 def add(name, wt):
     d = os.path.join(VERIF, "benign", name); os.makedirs(d, exist_ok=True)
+    sh("git add -N src", cwd=wt)  # new files belong to the patch
     rc, diff = sh("git diff -- src", cwd=wt)
     if not diff.strip(): sys.exit("no change")
     open(os.path.join(d, "patch.diff"), "w").write(diff)
     rc, out = sh("cargo test --offline --lib 2>&1 | grep -E '^test result|error' ; cargo test --offline --doc 2>&1 | grep -E '^test result|error'", cwd=wt)
-    ok = out.count("test result: ok") >= 2 and "102 passed" in out and "FAILED" not in out
+    import re as _re
+    _m = _re.search(r"(\d+) passed", out)
+    ok = out.count("test result: ok") >= 2 and _m is not None and int(_m.group(1)) >= 102 and "FAILED" not in out
     meta = {"name": name, "suite_passes": ok, "changed_lines": sum(1 for l in diff.splitlines() if l.startswith(('+','-')) and not l.startswith(('+++','---')))}
     json.dump(meta, open(os.path.join(d, "meta.json"), "w"), indent=1)
     print(meta)
@@ -38,6 +41,12 @@ def run(name, checks):
             if rc!=0: print(f"  {c}: exit {rc} {detail[:200]}", flush=True)
     finally:
         sh("git checkout -q -- .", cwd="/repo")
+        # files the patch created are untracked in /repo: remove exactly those
+        lines = open(f"{d}/patch.diff").read().splitlines()
+        for k, l in enumerate(lines):
+            if l.startswith("--- /dev/null") and k + 1 < len(lines) and lines[k + 1].startswith("+++ b/"):
+                f = os.path.join("/repo", lines[k + 1][6:])
+                if os.path.isfile(f): os.remove(f)
         sh(f"find {VERIF}/replays -name '*.json' -delete")
     mp=os.path.join(d,"meta.json"); meta=json.load(open(mp)); meta["checks"]=res
     meta["alarms"]=sorted(c for c,r in res.items() if r["exit"]==1)
